@@ -10,6 +10,11 @@ CHECKS = {
     text="TLC checks the transcribed planners exhaustively over all small division pairs / partition counts (design level) and, for every one of those TLC-enumerated cases, validates the plan and the partitions produced by the real code against the specification's postconditions (rows preserved in order, new divisions honoured, rejection iff the range is not covered) evaluated on a universal dataset, so the verdict covers every frame with those divisions. Model checking is the right level: the planner is index arithmetic over small integers and its failures are alignment corner cases inside the enumerated scope.",
     note="Trusted: TLC, the contracts of dask.dataframe helper functions written in spec/PlanSem.tla (bound by the PlanBinding clause on every trace), the harness abstraction of layers (harness/vx/plans.py). Bounded scope: divisions over 4-5 values, <= 6-9 partitions; partition_size/freq variants are replayed only in the thorough tier.",
     design="5.2 C13"),
+ "C12": dict(
+    technique="TLA+ transcription of SimpleShuffle/TaskShuffle/DiskShuffle layers model-checked by TLC for all (method, n_in, n_out, max_branch, selection); real layers, inputs and outputs trace-validated by TLC (routing postcondition, key co-location across dtypes)",
+    text="TLC runs the transcribed shuffle planners stage by stage for every (method, n_in, n_out, max_branch, selection of output partitions) within the bound and evaluates the routing postcondition on a universal dataset; for every one of those cases the layer the real shuffle node emits is abstracted and its meaning (spec/ShuffleOps.tla) must route every row exactly once to the partition its routing number names, must equal what the real graph computed, and the real execution must not fail. Co-location across frames with different key dtypes/placements is validated from the partition numbers real shuffles assigned. Model checking fits: routing is digit arithmetic over small integers and the failures are stage/subset alignment cases inside the enumerated scope.",
+    note="Trusted: TLC; contracts of dask.dataframe.shuffle helpers as written in spec/ShuffleOps.tla (bound by PlanBinding on every trace); harness abstraction of layers (harness/vx/c12.py). p2p shuffle is not bound (no `distributed`). Bounded: n_in <= 6 (quick) / 9 (thorough), max_branch in 2..4.",
+    design="5.2 C12"),
 }
 
 def main():
